@@ -209,7 +209,11 @@ theorem inv_step {s s' : St} {pre post : List Thread} {t t' : Thread} (h : Inv (
     rcases hu with hu | rfl | hu
     · exact tinv_other (ht u (by simp [hu])) hmo hl'.once_le
         (fun a b => holders_excl hc (Or.inl hu) a b) (fun p hp => distinct_other hid (Or.inl hu) p hp)
-    · exact tinv_own htt hl hn hwo hld hm
+    · exact tinv_own htt hl hn hwo hld (fun hb => by
+        have := hcf.pre hb
+        cases hx : s.running
+        · rfl
+        · have := hl.run_once hx; omega) hm
     · exact tinv_other (ht u (by simp [hu])) hmo hl'.once_le
         (fun a b => holders_excl hc (Or.inr hu) a b) (fun p hp => distinct_other hid (Or.inr hu) p hp)
 
@@ -218,7 +222,7 @@ theorem inv_init (q b : Nat) (ts : List Thread) (hi : ∀ t ∈ ts, t.initial = 
   refine ⟨cnt_init q b ts hi, fun o => ?_, ?_, ?_, ?_, ?_, hd⟩
   · refine ⟨?_, ?_, ?_, ?_, ?_⟩ <;> simp [initSt, holdW, holdR]
   · refine ⟨?_, ?_, ?_, ?_, ?_⟩ <;> simp [initSt, atTop]
-  · refine ⟨?_, ?_, ?_, ?_, ?_, ?_, ?_, ?_, ?_, ?_, ?_, ?_, ?_, ?_, ?_⟩ <;> simp [initSt]
+  · refine ⟨?_, ?_, ?_, ?_, ?_, ?_, ?_, ?_, ?_, ?_, ?_, ?_, ?_, ?_, ?_, ?_⟩ <;> simp [initSt]
   · refine ⟨?_, ?_, ?_, ?_, ?_⟩ <;> simp [initSt]
   · intro u hu
     have := hi u hu
